@@ -15,7 +15,8 @@ KEYWORD_KEYS = ["class", "def", "import", "list", "dict", "type", "id", "str", "
 STYLE_KEYS = ["snake_case_key", "camelCaseKey", "PascalCaseKey", "kebab-case-key", "with1digit2", "HTTPResponse", "userID",
               "XMLHttpRequest", "a", "A", "aB", "Ab", "x_1", "key with space", "dotted.key", "$ref", "@type", "a__b", "__a",
               "_a", "1x", "one_x", "9", "0abc", "été", "naïve", "Straße", "ключ", "名前", "ﬁle", "İstanbul",
-              "cafe\u0301", "nai\u0308ve", "A\u030angstrom", "o\u0302m"]           # decomposed (NFD) spellings
+              "cafe\u0301", "nai\u0308ve", "A\u030angstrom", "o\u0302m",
+              "@2x", "#1_hit", "(3d)_model", "-1d", " 1st"]                              # first WORD character is a digit           # decomposed (NFD) spellings
 
 
 def tables(strings, cu):
